@@ -8,7 +8,7 @@ PROP = "C18"
 
 def s_jobs(tier):
     t = 200 if tier == "quick" else 900
-    return [chrun.SJob("vlib.sh.c18a", "c18a", base.parts(20), t,
+    return [chrun.SJob("vlib.sh.c18a", "c18a", base.parts(24), t,
                        what="simplify_chained_calls on a literal projection in 4 positions (direct, after Select-Select fusion, behind First(), inside a Where "
                             "predicate over a packaged Select) x 5 container kinds (tuple, list, dict with str keys, dict with int keys, dict with a symbolic key); "
                             "symbolic: selector kind (11: int constant, bool, None, str, attribute, unary minus, float, four slice forms 0:k, k:, ::k, 1:3:k with k case-split), its value (int in [-5,5], any str "
@@ -46,7 +46,7 @@ def run(tier):
     chrun.fold_into(r, so)
     base.finish_s(r, so, rule=base.S_RULE,
                   explanation="S part: bounded symbolic execution of the real simplifier with symbolic selectors (totality, validity of the result, dedicated index error only when allowed)")
-    r.coverage["bounds_s"] = {"int_selector": [-5, 5], "str_selector_len": 2, "arity": [0, 3], "positions": 4, "containers": 5, "selector_kinds": 8}
+    r.coverage["bounds_s"] = {"int_selector": [-5, 5], "str_selector_len": 2, "arity": [0, 3], "positions": 4, "containers": 6, "selector_kinds": 11}
     r.coverage["not_symbolically_executed"] = ["validity check of the result: compile()/ast.unparse on a copy whose symbolic leaves are replaced by stand-ins of the same type"]
     us, n = t_units(tier)
     res = tvrun.run_units(us)
